@@ -407,7 +407,8 @@ class Run:
         return len(bad_cases)
 
     def gen_validate(self, label, harness_args, module, cfg, shards, classify, count_cases, env=None,
-                     timeout=1800, stdin_files=None, xmx="3g", case_key="case", crash_is_violation=False):
+                     timeout=1800, stdin_files=None, xmx="3g", case_key="case", crash_is_violation=False, also=()):
+        # also: further (module, cfg) judges applied to the same recorded trace
         """Run the harness `shards` times (seed varies per shard, or one stdin file per shard) and
         validate every trace in parallel."""
         build_harness()
@@ -433,8 +434,12 @@ class Run:
             n = count_cases(tr)
             bad = self.validate("%s-%s-%d" % (self.prop, label, i), module, cfg, tr, classify, env=env, timeout=timeout, xmx=xmx,
                                 case_key=case_key)
+            for (m2, c2) in also:
+                bad += self.validate("%s-%s-%d-%s" % (self.prop, label, i, m2[:-4]), m2, c2, tr, classify, env=env, timeout=timeout,
+                                     xmx=xmx, case_key=case_key)
             return ("ok", i, 0, "", tr, n, bad)
 
+        t_start = time.time()
         results = parallel([(one, (i,), {}) for i in range(shards)])
         total = 0
         for r in results:
@@ -455,7 +460,8 @@ class Run:
                 except Exception:
                     pass
                 break
-        log("[trace] %s: %d real-code cases judged by %s" % (label, total, module))
+        log("[trace] %s: %d real-code cases judged by %s%s (%.0fs)" % (label, total, module, "".join(" + " + m for (m, _) in also),
+                                                                        time.time() - t_start))
         return total
 
     def finish(self, rule, extra_cov=None, exhaustive=False, write=True):
